@@ -1724,6 +1724,27 @@ where
         self.keep = true;
     }
 
+    /// Keep the subscription in the table after a report that turned out to be
+    /// empty and was therefore *not sent*: none of the pending changes concerns
+    /// this subscription and no liveness report is due yet.
+    ///
+    /// The watermarks advance (there is nothing in them for this subscription), but
+    /// the last-success timestamp and the retry state stay as they are: the peer
+    /// received nothing, so this is not a report the maximum interval (the liveness
+    /// deadline, and `is_expired`) or the minimum interval may be measured from.
+    /// Committing "now" here would let a stream of changes to attributes the
+    /// subscriber did not select postpone its liveness report indefinitely.
+    pub fn set_keep_unsent(&mut self) {
+        let sub = self.subscription();
+        let (reported_at, retry_at, fail_count) = (sub.reported_at, sub.retry_at, sub.fail_count);
+
+        self.next_reported_at = reported_at;
+        self.next_retry_at = retry_at;
+        self.next_fail_count = fail_count;
+
+        self.keep = true;
+    }
+
     /// Keep the subscription in the table after a *failed* send to the peer, so it
     /// retries — with a back-off, and without advancing its watermarks or its
     /// last-success timestamp.
